@@ -972,18 +972,36 @@ Section Assemble.
     rewrite IH. reflexivity.
   Qed.
 
-  Theorem registry_refines (st : BeaconState) :
+  (* the common result, in closed form: ejections and eligibility in one structural pass, then the activations *)
+  Definition registry_vals1 (st : BeaconState) : list Validator :=
+    let ce := get_current_epoch E st in
+    let vals0 := validators st in
+    let flats := map flatten vals0 in
+    let limit := churn_limit_of E vals0 ce in
+    let q := qnorm limit (aee E ce) (map v_exit_epoch vals0) in
+    elig_struct E ce flats (eject_struct E ce limit flats vals0 (fst q) (snd q)).
+  Definition registry_activated (st : BeaconState) : list N :=
+    let ce := get_current_epoch E st in
+    let flats := map flatten (validators st) in
+    firstn (N.to_nat (activation_churn_limit c f (churn_limit_of E (validators st) ce)))
+           (sort_idx flats (idx_where (fin_cond (cp_epoch (finalized_checkpoint st))) 0 flats)).
+  Definition registry_result (st : BeaconState) : BeaconState :=
+    with_validators st
+      (fold_left (fun vs i => updN vs i (set_act (get_current_epoch E st + 1 + MAX_SEED_LOOKAHEAD c)))
+                 (registry_activated st) (registry_vals1 st)).
+
+  Theorem registry_refines_explicit (st : BeaconState) :
     let ce := get_current_epoch E st in
     RegBounds c ce (validators st) ->
     cp_epoch (finalized_checkpoint st) <= ce ->
-    exists st',
-      Registry.process_registry_updates c f ce (flatten_validators (validators st)) st = Some st' /\
-      Epoch.process_registry_updates E f st = Some st'.
+    Registry.process_registry_updates c f ce (flatten_validators (validators st)) st = Some (registry_result st) /\
+    Epoch.process_registry_updates E f st = Some (registry_result st).
   Proof.
-    intros ce HB Hfin. set (vals0 := validators st). set (flats := map flatten vals0).
+    intros ce HB Hfin. unfold registry_result, registry_vals1, registry_activated. fold ce.
+    set (vals0 := validators st). set (flats := map flatten vals0).
     set (fin := cp_epoch (finalized_checkpoint st)) in *.
     set (limit := churn_limit_of E vals0 ce).
-    destruct (qnorm limit (aee E ce) (map v_exit_epoch vals0)) as [e ch] eqn:Hq.
+    destruct (qnorm limit (aee E ce) (map v_exit_epoch vals0)) as [e ch] eqn:Hq. cbn [fst snd].
     pose proof (qnorm_bounds E ce vals0 limit e ch HB Hq) as [Hb1 [Hb2 Hb3]].
     pose proof HB as [Hquot Hcount Hep Hex].
     assert (Hce : ce < max64) by lia.
@@ -1000,7 +1018,7 @@ Section Assemble.
     set (ae := ce + 1 + MAX_SEED_LOOKAHEAD c).
     set (alimit := activation_churn_limit c f limit).
     set (act := firstn (N.to_nat alimit) (sort_idx flats (idx_where (fin_cond fin) 0 flats))).
-    exists (with_validators st (fold_left (fun vs i => updN vs i (set_act ae)) act vals1)). split.
+    split.
     - (* zrnt *)
       unfold Registry.process_registry_updates, process_registry_updates_with, flatten_validators. fold vals0 flats.
       fold (compute_registry_process_data c flats ce). unfold flats at 1. rewrite (compute_rd_spec E ce vals0 HB).
@@ -1045,4 +1063,12 @@ Section Assemble.
         rewrite Hsq; [apply map_snd_keyed|].
         clear -Hrel. induction Hrel as [|fl v fls vls [Hr _] _ IH]; constructor; assumption.
   Qed.
+  Theorem registry_refines (st : BeaconState) :
+    let ce := get_current_epoch E st in
+    RegBounds c ce (validators st) ->
+    cp_epoch (finalized_checkpoint st) <= ce ->
+    exists st',
+      Registry.process_registry_updates c f ce (flatten_validators (validators st)) st = Some st' /\
+      Epoch.process_registry_updates E f st = Some st'.
+  Proof. intros ce HB Hfin. exists (registry_result st). apply registry_refines_explicit; assumption. Qed.
 End Assemble.
